@@ -153,6 +153,8 @@ class PopulationBalanceModel:
         '''
         if self._record:
             maxBins = self.maxBins if self._adaptiveBinSize else self.bins
+            #Recorded arrays only grow: a fixed grid can have fewer classes than the initial record width
+            maxBins = max(maxBins, self.bins, self._recordedPSD.shape[1])
             self._recordedBins = np.pad(self._recordedBins, ((0, 1), (0, maxBins+1 - self._recordedBins.shape[1])))
             self._recordedPSD = np.pad(self._recordedPSD, ((0, 1), (0, maxBins - self._recordedPSD.shape[1])))
             self._recordedTime = np.pad(self._recordedTime, (0,1))
